@@ -62,6 +62,8 @@ var anyFrameRE = regexp.MustCompile(`^\s+([A-Za-z0-9_./*()\-]+)\(`)
 func (c12) PostBatch(outdir string, batch int, res *workerResult) {
 	files, _ := filepath.Glob(filepath.Join(outdir, fmt.Sprintf("race-b%d.*", batch)))
 	seen := map[string]bool{}
+	res.Counters["race_log_files_parsed"] += int64(len(files))
+	res.Counters["race_reports"] += 0
 	for _, f := range files {
 		b, err := os.ReadFile(f)
 		if err != nil {
